@@ -151,7 +151,11 @@ func cmdCheck(args []string) int {
 	sort.Strings(keys)
 	var reports []*FuncReport
 	for _, k := range keys {
-		reports = append(reports, eng.verifyFunc(eng.db.Contracts[k]))
+		// `option modesonly`: every clause of the contract belongs to a mode (callers that name no mode get the frame
+		// only), so there is no unmoded statement to prove - the per-mode runs prove everything there is
+		if eng.db.Contracts[k].Options["modesonly"] == "" {
+			reports = append(reports, eng.verifyFunc(eng.db.Contracts[k]))
+		}
 		for _, m := range contractModes(eng.db.Contracts[k]) {
 			reports = append(reports, eng.verifyFuncMode(eng.db.Contracts[k], m))
 		}
